@@ -430,8 +430,14 @@ where
             CacheError::SendError(format!("fail to send clear signal to working thread {}", e))
         })?;
 
+        #[cfg(transparencies_stretto_verif)]
+        crate::verif::yield_point("clear.after_signal");
         self.policy.clear();
+        #[cfg(transparencies_stretto_verif)]
+        crate::verif::yield_point("clear.after_policy_clear");
         self.store.clear();
+        #[cfg(transparencies_stretto_verif)]
+        crate::verif::yield_point("clear.after_store_clear");
         self.metrics.clear();
 
         Ok(())
@@ -516,6 +522,8 @@ where
         if let Some(prev) = prev {
             self.callback.on_exit(Some(prev.value.into_inner()));
         }
+        #[cfg(transparencies_stretto_verif)]
+        crate::verif::yield_point("remove.after_store_remove");
         // If we've set an item, it would be applied slightly later.
         // So we must push the same item to `setBuf` with the deletion flag.
         // This ensures that if a set is followed by a delete, it will be
@@ -540,10 +548,14 @@ where
         }
 
         self.clear()?;
+        #[cfg(transparencies_stretto_verif)]
+        crate::verif::yield_point("close.after_clear");
         // Block until processItems thread is returned
         self.stop_tx
             .send(())
             .map_err(|e| CacheError::SendError(format!("{}", e)))?;
+        #[cfg(transparencies_stretto_verif)]
+        crate::verif::yield_point("close.after_stop");
         self.policy.close()?;
         self.is_closed.store(true, Ordering::SeqCst);
         Ok(())
@@ -564,6 +576,8 @@ where
 
         self.try_update(key, val, cost, ttl, only_update)?
             .map_or(Ok(false), |(index, item)| {
+                #[cfg(transparencies_stretto_verif)]
+                crate::verif::yield_point("insert.after_store_update");
                 let is_update = item.is_update();
                 // Attempt to send item to policy.
                 select! {
